@@ -64,7 +64,9 @@ def gen_case(st, tier, env):
             ops.append({"op": "consensus", "alg": w.choice(["PickAPerm", "BordaCount"])})
         elif r < 0.94:
             ops.append({"op": "parse", "which": w.randrange(64), "notation": w.choice(["brace", "bracket"])})
-        elif r < 0.955:
+        elif r < 0.945:
+            ops.append({"op": "consensus_wrap", "how": w.choice(["rankings", "raw", "unified"]), "drop": w.randrange(64)})
+        elif r < 0.96:
             ops.append({"op": "mutate_child", "which": w.randrange(64), "pick": [w.randrange(64)],
                         "how": w.choice(["remove_elements", "remove_empty_rankings", "remove_rate"]),
                         "rate": w.choice([0.3, 0.6])})
@@ -336,6 +338,37 @@ def run_case(case, ctx):
                 for i, r in enumerate(cons.consensus_rankings):
                     bads += ranking_views(r, f"{op['alg']}.consensus_rankings[{i}]")
                 report(bads, "C16/derived-views", kind, {"alg": op["alg"]})
+        elif kind == "consensus_wrap":
+            # a Consensus built by hand (no dataset attached) from rankings the caller already holds
+            from ..lib import Consensus
+            if op["how"] == "rankings":
+                held = list(ds.rankings)
+            elif op["how"] == "unified":
+                oku, held = call(ds.unified_rankings)
+                if not oku:
+                    continue
+            else:
+                held = None
+            if held is not None:
+                held = [r0 for r0 in held if len(r0) > 0]
+                if len(held) > 1:
+                    held = held[op["drop"] % len(held):] + held[:op["drop"] % len(held)]
+                okc, cons = call(Consensus, held)
+            else:
+                okc, cons = call(Consensus.from_raw_lists, [[set(b) for b in r0.buckets] for r0 in ds.rankings])
+            if not okc:
+                ctx.probe("consensus_wrap_refused")  # (an IndexError of the constructor is outside the properties)
+                continue
+            ctx.probe("consensus_wrapped")
+            ctx.probe("derived_checked")
+            bads = []
+            for n_r, r0 in enumerate(cons.consensus_rankings):
+                bads += ranking_views(r0, f"Consensus(...).consensus_rankings[{n_r}]")
+            if held is not None:
+                for n_r, r0 in enumerate(held):
+                    bads += ranking_views(r0, f"ranking handed to Consensus [{n_r}]")
+            report(bads, "C16/derived-views", kind, {"how": op["how"]})
+            report(dataset_views(ds), "C16/views", kind)
         elif kind == "mutate_child":
             if not live:
                 continue
